@@ -278,7 +278,7 @@ def run(ctx) -> None:
     rb.build()
     st_a = c06.states_for(False, ctx.seed)[0]
     st_b = c06.states_for(False, ctx.seed)[1]
-    pres = list(drv.PRE_CHOICES) if ctx.thorough else [None, 0x32, 0x25, drv.PRE_BYTES[ctx.seed % 15]]
+    pres = list(drv.PRE_CHOICES) if ctx.thorough else [None, 0x32, 0x25, 0x37, drv.PRE_BYTES[ctx.seed % 15]]
     pairs = [(p, op) for p in pres for op in range(256) if not (p is None and op in drv.PRE_BYTES)]
     tail = bytes.fromhex("3404050607")
     resA = pmap(_shard_a, [(s, tail, st) for st in ([st_a, st_b] if ctx.thorough else [st_a]) for s in chunks(pairs, nproc() * 2)])
